@@ -20,7 +20,7 @@ theorem mapLProp_ids (p : Ptr) (lpid : Nat) (f : LProp → LProp) (hf : ∀ l, (
   by_cases h : l.id = lpid <;> simp [h, hf]
 
 theorem lpropCols_mapLProp_congr {p : Ptr} {lpid : Nat} {f : LProp → LProp}
-    (hf : ∀ l ∈ p.lprops, l.id = lpid → (f l).id = l.id ∧ (f l).computed = l.computed) :
+    (hf : ∀ l ∈ p.lprops, l.id = lpid → (f l).col = l.col ∧ (f l).computed = l.computed) :
     ∀ c, c ∈ (p.mapLProp lpid f).lpropCols ↔ c ∈ p.lpropCols := by
   intro c
   rw [mem_lpropCols, mem_lpropCols]
@@ -45,21 +45,30 @@ theorem lpropCols_mapLProp_congr {p : Ptr} {lpid : Nat} {f : LProp → LProp}
 theorem mapLProp_noop {s : Schema} {c : Catalog} (w : WF s) (he : c.Equiv (layout s))
     {i : Nat} {p : Ptr} (hf : s.findPtr i = some p) (lpid : Nat) (f : LProp → LProp)
     (hid : ∀ l, (f l).id = l.id)
-    (hfc : ∀ l ∈ p.lprops, l.id = lpid → (f l).computed = l.computed) :
+    (hfc : ∀ l ∈ p.lprops, l.id = lpid → (f l).computed = l.computed)
+    (hcol : ∀ l ∈ p.lprops, l.id = lpid → (f l).col = l.col)
+    (hin : ∀ l ∈ p.lprops, (f l).implicitName = false) :
     ∃ c', execAll c [] = some c' ∧ WF (s.updPtr i (fun q => q.mapLProp lpid f)) ∧
       c'.Equiv (layout (s.updPtr i (fun q => q.mapLProp lpid f))) := by
   obtain ⟨hp, hpi⟩ := findPtr_some hf
   have hnd : ((p.mapLProp lpid f).lprops.map (·.id)).Nodup := by
     rw [mapLProp_ids p lpid f hid]; exact w.lpids p hp
-  refine step_upd w he hf (fun q => q.mapLProp lpid f) (fun _ => rfl) rfl rfl (Or.inl rfl) hnd ?_
+  have hln : ∀ l' ∈ (p.mapLProp lpid f).lprops, l'.implicitName = false := by
+    intro l' hl'
+    obtain ⟨l, hl, rfl⟩ := mem_mapLProp.mp hl'
+    by_cases h : l.id = lpid
+    · simp only [h, if_true]; exact hin l hl
+    · simp only [h, if_false]; exact w.lpnames p hp l hl
+  refine step_upd w he hf (fun q => q.mapLProp lpid f) (fun _ => rfl) rfl rfl (Or.inl rfl) hnd hln ?_
   have hcols := lpropCols_mapLProp_congr (p := p) (lpid := lpid) (f := f)
-    (fun l hl h => ⟨hid l, hfc l hl h⟩)
+    (fun l hl h => ⟨hcol l hl h, hfc l hl h⟩)
   have hu := userProps_congr hcols
   have hht := hasTable_congr (p := p) (p' := p.mapLProp lpid f) rfl rfl rfl rfl hu
   exact local_noop hht (ptrCols_congr rfl rfl hht hcols)
 
 theorem step_renameLProp {s s' : Schema} {c : Catalog} {ops : List Op} (w : WF s) (he : c.Equiv (layout s))
-    (i lpid name : Nat) (hem : emit s (.renameLProp i lpid name) = some (s', ops)) :
+    (i lpid : Nat) (name : LName) (hsafe : safeStep s (.renameLProp i lpid name) = true)
+    (hem : emit s (.renameLProp i lpid name) = some (s', ops)) :
     ∃ c', execAll c ops = some c' ∧ WF s' ∧ c'.Equiv (layout s') := by
   simp only [emit] at hem
   split at hem
@@ -68,7 +77,19 @@ theorem step_renameLProp {s s' : Schema} {c : Catalog} {ops : List Op} (w : WF s
     split at hem
     · simp only [Option.some.injEq, Prod.mk.injEq] at hem
       obtain ⟨rfl, rfl⟩ := hem
-      exact mapLProp_noop w he hf lpid (fun l => { l with name := name }) (fun _ => rfl) (fun _ _ _ => rfl)
+      obtain ⟨hp, _⟩ := findPtr_some hf
+      have hother : ∃ n, name = .other n := by
+        simp only [safeStep, Bool.and_eq_true] at hsafe
+        cases name with
+        | other n => exact ⟨n, rfl⟩
+        | source => simp at hsafe
+        | target => simp at hsafe
+      obtain ⟨n, rfl⟩ := hother
+      refine mapLProp_noop w he hf lpid (fun l => { l with name := .other n }) (fun _ => rfl) (fun _ _ _ => rfl)
+        ?_ (fun _ _ => rfl)
+      intro l hl _
+      rw [col_of_plain (w.lpnames p hp l hl)]
+      rfl
     · cases hem
 
 theorem step_setLPropComputed {s s' : Schema} {c : Catalog} {ops : List Op} (w : WF s)
@@ -88,11 +109,21 @@ theorem step_setLPropComputed {s s' : Schema} {c : Catalog} {ops : List Op} (w :
       have honly : ∀ l ∈ p.lprops, l.id = lpid → l = lp := fun l hl h => nodup_lp hnd0 hl hlp (by rw [h, hlpid])
       have hnd : ((p.mapLProp lpid (fun l => { l with computed := b })).lprops.map (·.id)).Nodup := by
         rw [mapLProp_ids p lpid (fun l => { l with computed := b }) (fun _ => rfl)]; exact hnd0
+      have hpl := w.lpnames p hp
+      have hln : ∀ (b' : Bool), ∀ l' ∈ (p.mapLProp lpid (fun l => { l with computed := b' })).lprops,
+          l'.implicitName = false := by
+        intro b' l' hl'
+        obtain ⟨l, hl, rfl⟩ := mem_mapLProp.mp hl'
+        by_cases h : l.id = lpid
+        · simp only [h, if_true]; exact hpl l hl
+        · simp only [h, if_false]; exact hpl l hl
+      rw [col_of_plain (hpl lp hlp), hpl lp hlp, hlpid] at hem
       split at hem
       · rename_i hsame
         simp only [Option.some.injEq, Prod.mk.injEq] at hem
         obtain ⟨rfl, rfl⟩ := hem
         refine mapLProp_noop w he hf lpid (fun l => { l with computed := b }) (fun _ => rfl) ?_
+          (fun _ _ _ => rfl) (fun l hl => hpl l hl)
         intro l hl h
         rw [honly l hl h]; exact hsame.symm
       · rename_i hdiff
@@ -103,11 +134,11 @@ theorem step_setLPropComputed {s s' : Schema} {c : Catalog} {ops : List Op} (w :
           simp only [Option.some.injEq, Prod.mk.injEq] at hem
           obtain ⟨rfl, rfl⟩ := hem
           refine step_upd w he hf (fun q => q.mapLProp lpid (fun l => { l with computed := true }))
-            (fun _ => rfl) rfl rfl (Or.inl rfl) hnd ?_
+            (fun _ => rfl) rfl rfl (Or.inl rfl) hnd (hln true) ?_
           have hcols : ∀ c, c ∈ (p.mapLProp lpid (fun l => { l with computed := true })).lpropCols ↔
               c ≠ .col lpid ∧ c ∈ p.lpropCols := by
             intro c
-            rw [mem_lpropCols, mem_lpropCols]
+            rw [mem_lpropCols_plain (hln true), mem_lpropCols_plain hpl]
             constructor
             · rintro ⟨l', hl', h1, h2⟩
               obtain ⟨l, hl, rfl⟩ := mem_mapLProp.mp hl'
@@ -118,7 +149,7 @@ theorem step_setLPropComputed {s s' : Schema} {c : Catalog} {ops : List Op} (w :
             · rintro ⟨hne, l, hl, h1, h2⟩
               have h : l.id ≠ lpid := by rintro rfl; exact hne h2
               exact ⟨_, mem_mapLProp.mpr ⟨l, hl, rfl⟩, by simp [h, h1], by simp [h, h2]⟩
-          have hold : CName.col lpid ∈ p.lpropCols := mem_lpropCols.mpr ⟨lp, hlp, hlc, by rw [hlpid]⟩
+          have hold : CName.col lpid ∈ p.lpropCols := (mem_lpropCols_plain hpl).mpr ⟨lp, hlp, hlc, by rw [hlpid]⟩
           have hu := userProps_of_lpropCols (p' := p)
             (p := p.mapLProp lpid (fun l => { l with computed := true })) (fun c hc => ((hcols c).mp hc).2)
           exact local_lpropUnstore (p := p) (p' := p.mapLProp lpid (fun l => { l with computed := true }))
@@ -132,11 +163,11 @@ theorem step_setLPropComputed {s s' : Schema} {c : Catalog} {ops : List Op} (w :
           simp only [Option.some.injEq, Prod.mk.injEq] at hem
           obtain ⟨rfl, rfl⟩ := hem
           refine step_upd w he hf (fun q => q.mapLProp lpid (fun l => { l with computed := false }))
-            (fun _ => rfl) rfl rfl (Or.inl rfl) hnd ?_
+            (fun _ => rfl) rfl rfl (Or.inl rfl) hnd (hln false) ?_
           have hcols : ∀ c, c ∈ (p.mapLProp lpid (fun l => { l with computed := false })).lpropCols ↔
               c = .col lpid ∨ c ∈ p.lpropCols := by
             intro c
-            rw [mem_lpropCols, mem_lpropCols]
+            rw [mem_lpropCols_plain (hln false), mem_lpropCols_plain hpl]
             constructor
             · rintro ⟨l', hl', h1, h2⟩
               obtain ⟨l, hl, rfl⟩ := mem_mapLProp.mp hl'
@@ -151,7 +182,7 @@ theorem step_setLPropComputed {s s' : Schema} {c : Catalog} {ops : List Op} (w :
                 · by_cases h : l.id = lpid <;> simp [h, h1]
                 · by_cases h : l.id = lpid <;> simp [h, h2]
           have hnew : CName.col lpid ∉ p.lpropCols := by
-            rw [mem_lpropCols]
+            rw [mem_lpropCols_plain hpl]
             rintro ⟨l, hl, h1, h2⟩
             have := honly l hl (CName.col.inj h2).symm
             rw [this, hlc] at h1; cases h1
@@ -164,7 +195,7 @@ theorem step_setLPropComputed {s s' : Schema} {c : Catalog} {ops : List Op} (w :
 /-! ### creating and dropping pointers -/
 
 theorem wf_filter_ptrs {s : Schema} (w : WF s) (g : Ptr → Bool) : WF { s with ptrs := s.ptrs.filter g } := by
-  refine ⟨?_, ?_, ?_, ?_⟩
+  refine ⟨?_, ?_, ?_, ?_, fun a ha => w.lpnames a (List.mem_filter.mp ha).1⟩
   · exact List.Nodup.sublist (List.Sublist.map _ List.filter_sublist) w.ids
   · intro a ha b hb
     exact w.names a ((List.mem_filter.mp ha).1) b ((List.mem_filter.mp hb).1)
@@ -183,7 +214,7 @@ theorem step_dropPtr {s s' : Schema} {c : Catalog} {ops : List Op} (w : WF s) (h
     obtain ⟨rfl, rfl⟩ := hem
     have hd := dead_computed p p.single
     obtain ⟨c', e, w1, h1⟩ := step_upd w he hf (fun q => { q with computed := true }) (fun _ => rfl) rfl rfl
-      (Or.inl rfl) (w.lpids p hp) (local_unstore (p := p) hd.1 hd.2)
+      (Or.inl rfl) (w.lpids p hp) (w.lpnames p hp) (local_unstore (p := p) hd.1 hd.2)
     refine ⟨c', e, wf_filter_ptrs w _, equiv_trans h1 (layout_congr (fun _ => Iff.rfl) ?_)⟩
     intro q hq
     rw [mem_updPtr w hf]
@@ -214,7 +245,7 @@ theorem step_createPtr {s s' : Schema} {c : Catalog} {ops : List Op} (w : WF s) 
       have hne : ∀ q ∈ s.ptrs, q.id ≠ p.id := by
         intro q hq h; exact hfresh (h ▸ mem_ptrIds_of_mem hq)
       have w0 : WF s0 := by
-        refine ⟨?_, ?_, ?_, ?_⟩
+        refine ⟨?_, ?_, ?_, ?_, ?_⟩
         · show (List.map (·.id) (s.ptrs ++ [dead])).Nodup
           rw [List.map_append, List.nodup_append]
           refine ⟨w.ids, by simp, ?_⟩
@@ -247,6 +278,12 @@ theorem step_createPtr {s s' : Schema} {c : Catalog} {ops : List Op} (w : WF s) 
           · rw [List.mem_singleton.mp ha]
             show (List.map (·.id) p.lprops).Nodup
             rw [hlps]; simp
+        · intro a ha lp hlp
+          rcases List.mem_append.mp ha with ha | ha
+          · exact w.lpnames a ha lp hlp
+          · rw [List.mem_singleton.mp ha] at hlp
+            have hlp : lp ∈ p.lprops := hlp
+            rw [hlps] at hlp; cases hlp
       have he0 : c.Equiv (layout s0) := by
         refine equiv_trans he (layout_congr (fun _ => Iff.rfl) ?_)
         intro q hq
@@ -268,6 +305,7 @@ theorem step_createPtr {s s' : Schema} {c : Catalog} {ops : List Op} (w : WF s) 
       have hup : p.userProps = false := by simp [Ptr.userProps, hlps]
       obtain ⟨c', e, w1, h1⟩ := step_upd w0 he0 hf0 (fun q => { q with computed := p.computed })
         (fun _ => rfl) rfl rfl (Or.inl rfl) (by show (List.map (·.id) p.lprops).Nodup; rw [hlps]; simp)
+        (by intro lp hlp; have hlp : lp ∈ p.lprops := hlp; rw [hlps] at hlp; cases hlp)
         (local_store (p := dead) (p' := p) rfl rfl rfl hd.1 hd.2 hup)
       have hs' : s0.updPtr p.id (fun q => { q with computed := p.computed }) = { s with ptrs := s.ptrs ++ [p] } := by
         show ({ s with ptrs := List.map _ (s.ptrs ++ [dead]) } : Schema) = _
@@ -336,7 +374,7 @@ theorem step_dropType {s s' : Schema} {c : Catalog} {ops : List Op} (w : WF s) (
     refine ⟨c2, ?_, ?_, ?_, ?_⟩
     · rw [execAll_append, e1]; simp only [Option.bind_some]
       rw [execAll_cons _ e2, execAll_nil]
-    · refine ⟨?_, ?_, ?_, ?_⟩
+    · refine ⟨?_, ?_, ?_, ?_, fun a ha => w.lpnames a (List.mem_filter.mp ha).1⟩
       · exact List.Nodup.sublist (List.Sublist.map _ List.filter_sublist) w.ids
       · intro a ha b hb
         exact w.names a ((List.mem_filter.mp ha).1) b ((List.mem_filter.mp hb).1)
